@@ -221,6 +221,21 @@ def impl_run(case):
     vqe.measure_expectation_statevector = spy
     try:
         solver = vqe.VQE(ansatz=a, optimizer=opt, initial_state=psi0, measure_method="statevector")
+        if case.get("prerun"):
+            # the same solver object first runs on the same operator OBJECT in another state (weights halved, an identity shift added),
+            # then the operator is changed back in place: the reported energies must belong to the operator as it is now
+            for ps in pham.pstrings:
+                ps.weight *= 0.5
+            shift = qib.operator.WeightedPauliString(qib.operator.PauliString.identity(L), 4.0)
+            pham.pstrings.append(shift)
+            try:
+                solver.run(pham)
+            except Exception:
+                pass
+            pham.pstrings.remove(shift)
+            for ps in pham.pstrings:
+                ps.weight *= 2.0
+            energies.clear()
         res = solver.run(pham)
     except Exception as e:
         return {"raised": kind_of(e), "msg": str(e)[:200]}
@@ -448,6 +463,12 @@ def oracle(case, o):
             break
     if es and not any(close(o["fun"], e) for e in es):
         bad.append(("C20:run:fun-not-evaluated", "res.fun is none of the evaluated energies"))
+    # the reported energy is the expectation value of the operator AS PASSED (its current state) in the reported final ansatz state
+    st = o["_state"]
+    if not close(o["fun"], np.vdot(st, H @ st)):
+        bad.append(("C20:run:fun-not-expectation-of-final-state",
+                    f"reported energy {o['fun']} != psi^dagger H psi = {np.vdot(st, H @ st)} for psi = U(res.x) psi0 and the Hamiltonian passed to run()"
+                    + (" (second run of the same solver on the same operator object, modified in place in between)" if case.get("prerun") else "")))
     return bad
 
 
@@ -641,6 +662,9 @@ def gen_run(tier, rng):
             x0 = [0.0] * npar if start == "zero" else [round(rng.uniform(-1, 1), 3) for _ in range(npar)]
             yield {"op": "vqe.run", "L": L, "exc": exc, "basis": basis, "t": -1.0, "u": float(rng.choice([0.5, 2.0, 5.0])),
                    "x0": [qstr(v) for v in x0], "method": "COBYLA", "maxiter": 60 if thorough else 25, "start": start}
+            if start == "random" and L <= 3:
+                yield {"op": "vqe.run", "L": L, "exc": exc, "basis": basis, "t": -1.0, "u": float(rng.choice([0.5, 2.0, 5.0])),
+                       "x0": [qstr(v) for v in x0], "method": "COBYLA", "maxiter": 25, "start": start, "prerun": True}
 
 
 def gen_cases(tier, rng):
